@@ -257,6 +257,8 @@ def settings_kwargs(case):
     kw = dict(seed=case["seed"], progress_bar=False)
     if case["algo"] == "scipy_minimize":
         kw.update(use_jacobian=case["use_jacobian"], n_jobs=1)
+        if case.get("custom"):
+            kw["custom_scipy_minimize_params"] = case["custom"]
         return kw
     kw.update(n_iter=case["n_iter"])
     if case["burn"][0] == "count":
@@ -507,6 +509,13 @@ def gen_case(env, rng, algo, model_name):
     case = dict(algo=algo, model=model_name, kind=kind, cohort=cohort, seed=rng.randrange(10 ** 6))
     if algo == "scipy_minimize":
         case["use_jacobian"] = rng.random() < 0.3
+        # optimiser settings that stop before convergence (a few iterations only): the returned point is then not a minimum,
+        # but it must still be the optimiser's point and not be worse than the start
+        case["custom"] = rng.choice([None, None, {"method": "Powell", "options": {"maxiter": 1}},
+                                     {"method": "Nelder-Mead", "options": {"maxiter": 3}},
+                                     {"method": "Powell", "options": {"maxiter": 2, "xtol": 1e-2, "ftol": 1e-2}}])
+        if case["custom"]:
+            case["use_jacobian"] = False
         return case
     n_iter = rng.choice([1, 2, 3, 5, 8, 12, 20, 30])
     case["n_iter"] = n_iter
